@@ -399,6 +399,35 @@ def type_fault(rng):
     return "(apply %s (append (list %s) (list %s)))" % (op, " ".join(args[:1]), " ".join(args[1:]))
 
 
+def type_fault_matrix():
+    """every numeric builtin x every arity it accepts x every position of the offending argument x a few offending
+    values x three ways of calling; pair and vector accessors x offending values"""
+    out = []
+    for op in sorted(NUMERIC_OPS):
+        lo, hi = NUMERIC_OPS[op]
+        for n in range(lo, hi + 1):
+            for pos in range(n):
+                for bad in ("'a", '"s"', "(vector 1)", "#t"):
+                    args = ["1", "2", "3"][:n]
+                    args[pos] = bad
+                    out.append("(%s %s)" % (op, " ".join(args)))
+                    out.append("(apply %s (list %s))" % (op, " ".join(args)))
+                    if n == 1:
+                        out.append("(map %s (list %s))" % (op, bad))
+                        out.append("((lambda (t) (%s t)) %s)" % (op, bad))
+                    else:
+                        out.append("(apply %s %s (list %s))" % (op, args[0], " ".join(args[1:])))
+    for op in ("car", "cdr", "cadr", "cddr", "caar", "cdar"):
+        for bad in NON_PAIRS:
+            out.append("(%s %s)" % (op, bad))
+            out.append("(map %s (list %s))" % (op, bad))
+    for bad in NON_VECTORS:
+        out += ["(vector-ref %s 0)" % bad, "(vector-length %s)" % bad, "(vector-set! %s 0 1)" % bad, "(apply vector-ref (list %s 0))" % bad]
+    for bad in ("'a", "1/2", '"s"', "1.5"):
+        out += ["(vector-ref (vector 1 2) %s)" % bad, "(vector-set! (vector 1 2) %s 0)" % bad]
+    return out
+
+
 def inject_fault(rng, gen, forms):
     """insert one faulty form (kind x calling context) at a random position; returns
     (forms, index_of_faulty_form, expected_kind, context)"""
